@@ -43,6 +43,9 @@ class Solo:
         for fr in frames:
             if fr.problems:
                 self.out_problems.append('%s:%s' % (fr.name, ','.join(fr.problems)))
+            if fr.length > self.peer_max_frame:
+                self.out_problems.append('frame-exceeds-peer-MAX_FRAME_SIZE:%s:%d>%d' %
+                                         (fr.name, fr.length, self.peer_max_frame))
             if self._blk is not None:
                 first, buf = self._blk
                 if fr.type != wire.CONTINUATION or fr.stream_id != first.stream_id:
@@ -80,8 +83,24 @@ class Solo:
 
     def feed(self, data):
         o = self.ep.recv(data)
+        if o.ok:
+            self._track_peer_frame_size(data)
         self._parse(o)
         return o
+
+    def _track_peer_frame_size(self, data):
+        """A MAX_FRAME_SIZE the harness has just announced (in whole, well-formed SETTINGS frames that the
+        endpoint accepted) binds every frame emitted from now on."""
+        data = bytes(data)
+        if data.startswith(wire.PREFACE):
+            data = data[len(wire.PREFACE):]
+        try:
+            frames, _ = wire.parse_all(data)
+        except Exception:   # noqa: BLE001 - input that is not a frame sequence announces nothing
+            return
+        for fr in frames:
+            if fr.type == wire.SETTINGS and not fr.problems and not fr.f.get('ack') and fr.stream_id == 0:
+                self.note_peer_settings([p for p in fr.f.get('settings', []) if p[0] == wire.S_MAX_FRAME_SIZE])
 
     # -- handshake -------------------------------------------------------
     def start(self, peer_settings=(), ack=True):
